@@ -429,7 +429,7 @@ Engine MakeEngine()
     e.run = Run;
     e.describe = Describe;
     e.chunk = 500;
-    e.quick_runs = 60000;
+    e.quick_runs = 400000;
     e.thorough_runs = 3000000;
     e.quick_budget_s = 45;
     e.thorough_budget_s = 900;
